@@ -274,7 +274,8 @@ def bindParams : List Param → List Val → (Var → Val) → (Var → Val)
 def initStatics (f : FName) : List (Var × Val) → (FName → Var → Option Val) → (FName → Var → Option Val)
   | [], st => st
   | (x, v) :: rest, st =>
-    initStatics f rest (fun g y => if g = f ∧ y = x ∧ (st f x).isNone then some v else st g y)
+    initStatics f rest
+      (if (st f x).isNone then (fun g y => if g = f ∧ y = x then some v else st g y) else st)
 
 /-- What a call makes of the outcome of the body. -/
 def callResult (callerEnv : Var → Val) : Res Out → Res Val
